@@ -131,27 +131,25 @@ static void reschedule(int kind) {
     if (n == 0) quiescent();
     int opts[VS_MAXT], nopt = 0, altcost = 1;
     int me_enabled = T[me].state == T_RUNNABLE;
+    int delay_mode = SH->user[1]; /* 1: delay-bounded exploration, every deviation from the default costs */
     if (me_enabled && n > 1 && consec >= FAIR_LIMIT) kind = VS_K_YIELD; /* fairness fall-back */
+    /* rot = runnable threads in round-robin order after me: me+1, me+2, ..., wrapping, me last */
+    int rot[VS_MAXT], nr = 0;
+    for (int d = 1; d <= nT; ++d) {
+        int t = (me + d) % nT;
+        if (T[t].state == T_RUNNABLE) rot[nr++] = t;
+    }
     if (!me_enabled) {
         kind = VS_K_FREE;
-        altcost = 0;
-        for (int i = 0; i < n; ++i) opts[nopt++] = en[i];
+        altcost = delay_mode ? 1 : 0;
+        for (int i = 0; i < nr; ++i) opts[nopt++] = rot[i];
     } else if (kind == VS_K_YIELD && n > 1) {
-        int def = -1;
-        for (int i = 0; i < n; ++i)
-            if (en[i] > me) {
-                def = en[i];
-                break;
-            }
-        if (def < 0) def = en[0] == me ? en[1] : en[0];
-        opts[nopt++] = def;
-        for (int i = 0; i < n; ++i)
-            if (en[i] != def) opts[nopt++] = en[i];
+        for (int i = 0; i < nr; ++i) opts[nopt++] = rot[i]; /* me is last */
     } else {
         kind = VS_K_NORMAL;
         opts[nopt++] = me;
-        for (int i = 0; i < n; ++i)
-            if (en[i] != me) opts[nopt++] = en[i];
+        for (int i = 0; i < nr; ++i)
+            if (rot[i] != me) opts[nopt++] = rot[i];
     }
     if (nopt > VS_MAXOPT) nopt = VS_MAXOPT;
     int c = nopt > 1 ? take_choice(nopt, altcost, kind, opts) : 0;
